@@ -164,6 +164,10 @@ class TracepointConfigService:
         """
         tp_id = str(uuid.uuid4())
         config = build_trigger(tp_id, path, line, args, watches, metrics)
+        if config is None:
+            # e.g. an unknown stage - there is nothing we can install for this, and None must not get into the config
+            logging.warning("Cannot process tracepoint for %s:%s with args %s, it is ignored.", path, line, args)
+            return tp_id
         self._custom.append(config)
         # the location id is shared by every tracepoint on the same line, so we key on the unique tracepoint id
         self._custom_by_id[tp_id] = config
